@@ -90,6 +90,16 @@ class Val:
     strict: bool = False  # reading it while possibly None is an error in Python (dict subscript)
 
 
+@dataclass
+class Rec:
+    """A Python object of which only attributes are used (`system_bounds`, the loop's proposal): attribute -> value."""
+    fields: dict
+    ty: object = "Rec"
+    key: object = None
+    strict: bool = False
+    term: str = "<object>"
+
+
 def atom(s: str) -> str:
     return s if (re.fullmatch(r"[\w.]+", s) or (s.startswith("(") and s.endswith(")"))) else f"({s})"
 
@@ -218,6 +228,9 @@ class Tr:
         self.sigs = sigs  # python callee source -> (lean name, [param types], return type)
         self.n = 0
         self.skip_raising_checks = False  # only for `_validate_component_ids` (its raise is a stated precondition)
+        self.module_funcs: dict = {}  # module-level functions that are inlined at their call sites
+        self.methods: dict = {}  # same-class methods that are inlined at `self.<name>(…)` call sites
+        self.depth = 0
 
     def fresh(self, base: str) -> str:
         self.n += 1
@@ -226,6 +239,9 @@ class Tr:
     # -------------------------------------------------------------------------------------------- values
     def raw(self, n: ast.expr, env: Env) -> Val:
         """Value of an expression, Option values NOT replaced by their narrowed form."""
+        h = f"@h{id(n)}"
+        if h in env.vals:
+            return env.vals[h]
         src = ast.unparse(n)
         if src in env.vals:
             v = env.vals[src]
@@ -242,6 +258,10 @@ class Tr:
             raise Unsupported(f"constant {n.value!r}")
         if isinstance(n, ast.Attribute):
             b = self.val(n.value, env)
+            if isinstance(b, Rec):
+                if n.attr not in b.fields:
+                    raise Unsupported(f"attribute {src}")
+                return b.fields[n.attr]
             if b.ty == "Bounds" and n.attr in ("lower", "upper"):
                 return Val(f"{atom(b.term)}.{n.attr}", "Rat")
             raise Unsupported(f"attribute {src}")
@@ -283,16 +303,30 @@ class Tr:
                 a = self.want(self.val(n.args[0], env), "Rat")
                 b = self.want(self.val(n.args[1], env), "Rat")
                 return Val(f"(py{f.capitalize()} {atom(a)} {atom(b)})", "Rat")
-            if f in self.sigs and not n.keywords:
-                lean, ptys, rty = self.sigs[f]
-                if len(ptys) != len(n.args):
+            if f in self.sigs:
+                lean, ptys, rty = self.sigs[f][:3]
+                pnames = self.sigs[f][3] if len(self.sigs[f]) > 3 else [None] * len(ptys)
+                given = dict(zip(pnames, n.args)) if pnames[0] is not None else {}
+                if n.keywords:
+                    for kw in n.keywords:
+                        if kw.arg is None or kw.arg not in pnames or kw.arg in given:
+                            raise Unsupported(f"keyword argument in call of {f}")
+                        given[kw.arg] = kw.value
+                    actual = [given.get(pn) for pn in pnames]
+                else:
+                    actual = list(n.args)
+                if len(actual) != len(ptys) or any(a is None for a in actual) or len(n.args) > len(ptys):
                     raise Unsupported(f"arity of {f}")
-                args = [atom(self.want(self.val(a, env), t)) for a, t in zip(n.args, ptys)]
+                args = [atom(self.want(self.val(a, env), t)) for a, t in zip(actual, ptys)]
                 return Val(f"({lean} {' '.join(args)})", rty)
+            if f in ("all", "any") and len(n.args) == 1 and not n.keywords:
+                return Val(f"(decide ({self.prop(n, env)}))", "Bool")
             raise Unsupported(f"call {f}")
         raise Unsupported(f"expression {src}")
 
     def view(self, v: Val, env: Env) -> Val:
+        if isinstance(v, Rec):
+            return v
         if v.key is not None and v.key in env.narrow:
             return Val(env.narrow[v.key], v.ty[1])
         if v.key is not None and v.key in env.none:
@@ -401,6 +435,13 @@ class Tr:
             return f"¬ ({self.prop(n.operand, env)})"
         if isinstance(n, ast.Constant) and isinstance(n.value, bool):
             return "True" if n.value else "False"
+        if isinstance(n, ast.Call) and isinstance(n.func, ast.Name) and n.func.id in ("all", "any") and len(n.args) == 1 \
+                and not n.keywords and n.func.id not in env.vals:
+            t = self.val(n.args[0], env)
+            if not (isinstance(t.ty, tuple) and t.ty[0] == "tup" and all(x == "Bool" for x in t.ty[1])):
+                raise Unsupported(f"{n.func.id}() of {ast.unparse(n.args[0])[:40]}")
+            j = " ∧ " if n.func.id == "all" else " ∨ "
+            return "(" + j.join(f"{atom(t.term)}.{i + 1} = true" for i in range(len(t.ty[1]))) + ")"
         v = self.val(n, env)
         if v.ty == "Bool":
             return f"{v.term} = true"
@@ -486,7 +527,7 @@ class Tr:
                     ty = t2 if is_opt(t2) else ("opt", t2)
                     break
             else:
-                raise Unsupported(f"cannot type `{name} = None`")
+                return (lambda body: body), env.bind(name, Val("none", ("opt", None)))
         if ty == "Num":
             raise Unsupported(f"untyped numeral assigned to {name}")
         term = self.want(v, ty)
@@ -501,11 +542,122 @@ class Tr:
                 e2.none = e2.none | {lname}
         return (lambda body: Let(lname, lean_ty(ty), term, body)), e2
 
+    # ---- calls that are executed (inlined) at their call site, in Python's evaluation order
+    def callee(self, n: ast.AST):
+        """(function, is_method) when `n` is a call of an inlinable module-level function / same-class method."""
+        if not isinstance(n, ast.Call):
+            return None
+        f = n.func
+        if isinstance(f, ast.Name) and f.id in self.module_funcs:
+            return self.module_funcs[f.id], False
+        if isinstance(f, ast.Attribute) and isinstance(f.value, ast.Name) and f.value.id == "self" and f.attr in self.methods:
+            return self.methods[f.attr], True
+        return None
+
+    def is_site(self, n: ast.AST, env: Env) -> bool:
+        c = self.callee(n)
+        return c is not None and not (isinstance(n.func, ast.Name) and n.func.id in env.vals)
+
+    def sites(self, n: ast.AST, env: Env) -> list:
+        """Call sites of an expression in evaluation order (none may sit inside a short-circuit / nested scope)."""
+        if isinstance(n, (ast.BoolOp, ast.IfExp, ast.Lambda, ast.ListComp, ast.SetComp, ast.DictComp, ast.GeneratorExp)):
+            if any(self.is_site(x, env) for x in ast.walk(n)):
+                raise Unsupported(f"call of a helper inside a short-circuit / nested scope: {ast.unparse(n)[:60]}")
+            return []
+        out: list = []
+        for c in ast.iter_child_nodes(n):
+            out += self.sites(c, env)
+        if self.is_site(n, env):
+            out.append(n)
+        return out
+
+    def seq(self, sites: list, env: Env, k):
+        if not sites:
+            return k(env)
+        return self.site(sites[0], env, lambda e: self.seq(sites[1:], e, k))
+
+    def site(self, n: ast.AST, env: Env, k):
+        fn, is_method = self.callee(n)
+        return self.inline_call(n, fn, is_method, env, k)
+
+    def inline_call(self, n: ast.Call, fn, is_method: bool, env: Env, k):
+        if self.depth > 8:
+            raise Unsupported(f"helper calls nested too deeply at {fn.name}")
+        a = fn.args
+        if a.vararg or a.kwarg or a.posonlyargs:
+            raise Unsupported(f"signature of {fn.name}")
+        names = [p.arg for p in a.args][1 if is_method else 0:]
+        kwonly = [p.arg for p in a.kwonlyargs]
+        if len(n.args) > len(names) or any(isinstance(x, ast.Starred) for x in n.args):
+            raise Unsupported(f"arguments of {fn.name}")
+        given = dict(zip(names, n.args))
+        for kw in n.keywords:
+            if kw.arg is None or (kw.arg not in names and kw.arg not in kwonly) or kw.arg in given:
+                raise Unsupported(f"keyword argument of {fn.name}")
+            given[kw.arg] = kw.value
+        defaults = dict(zip(names[len(names) - len(a.defaults):], a.defaults))
+        defaults.update({p: d for p, d in zip(kwonly, a.kw_defaults) if d is not None})
+        vals = {}
+        for p in names + kwonly:
+            if p in given:
+                vals[p] = self.val(given[p], env)
+            elif p in defaults:
+                vals[p] = self.val(defaults[p], Env())
+            else:
+                raise Unsupported(f"missing argument {p} of {fn.name}")
+        if is_method:
+            vals["self"] = env.vals["self"] if "self" in env.vals else Rec({})
+        for key, v in env.vals.items():  # state slots of extractors built on this translator
+            if key.startswith("@") and not key.startswith("@h"):
+                vals[key] = v
+        h = f"@h{id(n)}"
+        tr = self
+
+        class InlineK(Kont):
+            def back(self_, v, e: Env):
+                out = env.copy()
+                out.narrow, out.none = dict(e.narrow), e.none
+                for key, w in e.vals.items():
+                    if key.startswith("@") and not key.startswith("@h"):
+                        out.vals[key] = w
+                out.vals[h] = v
+                tr.depth -= 1
+                try:
+                    return k(out)
+                finally:
+                    tr.depth += 1
+
+            def end(self_, e):
+                return self_.back(Val("none", ("opt", None)), e)
+
+            def ret(self_, value, e):
+                if value is None:
+                    return self_.back(Val("none", ("opt", None)), e)
+                return self_.back(tr.val(value, e), e)
+        inner = Env(vals=vals, members=env.members, narrow=dict(env.narrow), none=env.none, decl={})
+        self.depth += 1
+        try:
+            return self.block(strip_doc(fn.body), inner, InlineK(), fn_assignments(fn))
+        finally:
+            self.depth -= 1
+
     def block(self, stmts: list[ast.stmt], env: Env, K: Kont, fn_assigns: dict):
         if not stmts:
             return K.end(env)
+        s = stmts[0]
+        head = {ast.Assign: "value", ast.AnnAssign: "value", ast.Return: "value", ast.If: "test", ast.Match: "subject",
+                ast.Expr: "value"}.get(type(s))
+        if head is not None and getattr(s, head) is not None and not _only_logging([s]):
+            st = self.sites(getattr(s, head), env)
+            if st:
+                return self.seq(st, env, lambda e: self.block1(stmts, e, K, fn_assigns))
+        return self.block1(stmts, env, K, fn_assigns)
+
+    def block1(self, stmts: list[ast.stmt], env: Env, K: Kont, fn_assigns: dict):
         s, rest = stmts[0], stmts[1:]
         go = lambda e: self.block(rest, e, K, fn_assigns)  # noqa: E731
+        if isinstance(s, ast.Expr) and self.callee(s.value) is not None:
+            return go(env)  # a helper called for its effect: already executed as a site
         if isinstance(s, ast.Expr) and isinstance(s.value, ast.Constant) and isinstance(s.value.value, str):
             return go(env)
         if isinstance(s, ast.Pass) or _only_logging([s]):
@@ -759,15 +911,31 @@ def loop_roles(fn: ast.FunctionDef, prelude, loop: ast.For, after):
 
 
 def proposal_fields(target: str, with_pref: bool, with_prio: bool) -> dict:
-    v = {
-        f"{target}.bounds.lower": Val("plo", ("opt", "Rat"), "plo"),
-        f"{target}.bounds.upper": Val("phi", ("opt", "Rat"), "phi"),
-    }
+    """The loop variable: an object whose attribute paths are the parameters of the step function."""
+    f: dict = {"bounds": Rec({"lower": Val("plo", ("opt", "Rat"), "plo"), "upper": Val("phi", ("opt", "Rat"), "phi")})}
     if with_pref:
-        v[f"{target}.preferred_power"] = Val("pref", ("opt", "Rat"), "pref")
+        f["preferred_power"] = Val("pref", ("opt", "Rat"), "pref")
     if with_prio:
-        v[f"{target}.priority"] = Val("pprio", "Int")
-    return v
+        f["priority"] = Val("pprio", "Int")
+    return {target: Rec(f)}
+
+
+def sb_rec() -> Rec:
+    return Rec({"inclusion_bounds": Val("incl", ("opt", "Bounds"), "incl"),
+                "exclusion_bounds": Val("excl", ("opt", "Bounds"), "excl")})
+
+
+def bind_call(fn: ast.FunctionDef, call: ast.Call, skip_self: bool) -> dict:
+    """parameter name -> argument expression of a call (positional and keyword arguments)."""
+    names = [a.arg for a in fn.args.args][1 if skip_self else 0:] + [a.arg for a in fn.args.kwonlyargs]
+    if len(call.args) > len(names):
+        raise Unsupported(f"arguments of {fn.name}")
+    out = dict(zip(names, call.args))
+    for kw in call.keywords:
+        if kw.arg is None or kw.arg not in names or kw.arg in out:
+            raise Unsupported(f"keyword argument of {fn.name}")
+        out[kw.arg] = kw.value
+    return out
 
 
 class StepK(Kont):
@@ -788,16 +956,27 @@ class StepK(Kont):
         return self.out(env, "true")
 
 
-def bounds_role(prelude: list[ast.stmt], incl_src: str) -> dict:
-    """name -> 'lower' | 'upper' for the prelude variables initialised from (only) that end of the inclusion bounds."""
-    ends: dict = {}
-    for st in prelude:
-        for s in ast.walk(st):
-            if isinstance(s, ast.Assign) and len(s.targets) == 1 and isinstance(s.targets[0], ast.Name):
-                ends.setdefault(s.targets[0].id, set()).update(
-                    x.attr for x in ast.walk(s.value)
-                    if isinstance(x, ast.Attribute) and x.attr in ("lower", "upper") and ast.unparse(x.value) == incl_src)
-    return {n: next(iter(e)) for n, e in ends.items() if len(e) == 1}
+def bounds_role(tr: "Tr", fn: ast.FunctionDef, loop: ast.For, carried: set) -> dict:
+    """name -> 'lower' | 'upper' for the loop-carried variables, by what the code DOES with them: the variable handed
+    to the `lower_bound` / `upper_bound` parameter of a `_bounds` helper inside the loop, or unpacked from
+    `adjust_exclusion_bounds(…)` (which returns (lower, upper))."""
+    votes: dict = {}
+    for x in ast.walk(ast.Module(body=loop.body, type_ignores=[])):
+        if isinstance(x, ast.Call) and ast.unparse(x.func) in tr.sigs:
+            pnames = tr.sigs[ast.unparse(x.func)][3]
+            given = dict(zip(pnames, x.args))
+            given.update({k.arg: k.value for k in x.keywords if k.arg})
+            for pn, role in (("lower_bound", "lower"), ("upper_bound", "upper")):
+                a = given.get(pn)
+                if isinstance(a, ast.Name) and a.id in carried:
+                    votes.setdefault(a.id, set()).add(role)
+        if isinstance(x, ast.Assign) and isinstance(x.value, ast.Call) and ast.unparse(x.value.func) in tr.sigs \
+                and tr.sigs[ast.unparse(x.value.func)][0].endswith("adjustExclusionBounds") \
+                and isinstance(x.targets[0], ast.Tuple) and len(x.targets[0].elts) == 2:
+            for el, role in zip(x.targets[0].elts, ("lower", "upper")):
+                if isinstance(el, ast.Name) and el.id in carried:
+                    votes.setdefault(el.id, set()).add(role)
+    return {n: next(iter(r)) for n, r in votes.items() if len(r) == 1}
 
 
 # ------------------------------------------------------------------------------------------------ the functions
@@ -812,7 +991,7 @@ def gen_calc(tr: Tr, fn: ast.FunctionDef) -> list[str]:
         raise Unsupported(f"{fn.name}: expected `return <target>` after the loop")
     target = after[0].value.id
     carried, inputs = loop_roles(fn, prelude, loop, after)
-    roles = bounds_role(prelude, f"{sb}.inclusion_bounds")
+    roles = bounds_role(tr, fn, loop, carried)
     lows = [n for n, r in roles.items() if r == "lower"]
     ups = [n for n, r in roles.items() if r == "upper"]
     if len(lows) != 1 or len(ups) != 1:
@@ -826,8 +1005,7 @@ def gen_calc(tr: Tr, fn: ast.FunctionDef) -> list[str]:
     assigns = fn_assignments(fn)
 
     # prelude
-    env0 = Env(vals={f"{sb}.inclusion_bounds": Val("incl", ("opt", "Bounds"), "incl"),
-                     f"{sb}.exclusion_bounds": Val("excl", ("opt", "Bounds"), "excl")})
+    env0 = Env(vals={sb: sb_rec()})
 
     class InitK(Kont):
         def end(self, env):
@@ -892,8 +1070,7 @@ def gen_status(tr: Tr, fn: ast.FunctionDef) -> list[str]:
     excl_var = next(iter(rest_inputs))
     assigns = fn_assignments(fn)
 
-    env0 = Env(vals={f"{sb}.inclusion_bounds": Val("incl", ("opt", "Bounds"), "incl"),
-                     f"{sb}.exclusion_bounds": Val("excl", ("opt", "Bounds"), "excl")})
+    env0 = Env(vals={sb: sb_rec()})
 
     class InitK(Kont):
         def end(self, env):
@@ -937,8 +1114,7 @@ class BoolK(Kont):
 def gen_validate(tr: Tr, fn: ast.FunctionDef) -> list[str]:
     sb = param_with_annotation(fn, "SystemBounds")
     cid = param_with_annotation(fn, "frozenset[int]")
-    env = Env(vals={f"{sb}.inclusion_bounds": Val("incl", ("opt", "Bounds"), "incl"),
-                    f"{sb}.exclusion_bounds": Val("excl", ("opt", "Bounds"), "excl")},
+    env = Env(vals={sb: sb_rec()},
               members={(cid, "self._component_buckets"): Val("bucket", ("opt", "Unit"), "bucket")})
     tr.skip_raising_checks = True
     try:
@@ -955,74 +1131,107 @@ def gen_validate(tr: Tr, fn: ast.FunctionDef) -> list[str]:
             "  unfold validateFails; exact inferInstance\n"]
 
 
-def gen_calculate(tr: Tr, fn: ast.FunctionDef, calc_name: str, validate_name: str) -> list[str]:
+def _is_return_none(s: ast.stmt) -> bool:
+    return isinstance(s, ast.Return) and (s.value is None or (isinstance(s.value, ast.Constant) and s.value.value is None))
+
+
+def gen_calculate(tr: Tr, cls: ast.ClassDef, fn: ast.FunctionDef):
+    """The control skeleton of `calculate_target_power`: returns (lean text, validation method, computation method)."""
+    methods = {f.name: f for f in cls.body if isinstance(f, ast.FunctionDef)}
+    ann = {a.arg: ast.unparse(a.annotation) for a in fn.args.args if a.annotation is not None}
     sb = param_with_annotation(fn, "SystemBounds")
     cid = param_with_annotation(fn, "frozenset[int]")
     must = param_with_annotation(fn, "bool")
-    prop_params = [a.arg for a in fn.args.args if a.annotation is not None and ast.unparse(a.annotation) == "Proposal | None"]
-    if len(prop_params) != 1:
-        raise Unsupported(f"{fn.name}: expected one `Proposal | None` parameter")
-    prop = prop_params[0]
+    prop = param_with_annotation(fn, "Proposal | None")
     body = strip_doc(fn.body)
     if any(isinstance(x, (ast.For, ast.While, ast.Try, ast.With)) for x in ast.walk(fn)):
         raise Unsupported(f"{fn.name}: loops / try / with")
-    # 1. validation guard
+
+    def self_call(e, what: str):
+        if not (isinstance(e, ast.Call) and isinstance(e.func, ast.Attribute) and isinstance(e.func.value, ast.Name)
+                and e.func.value.id == "self" and e.func.attr in methods):
+            raise Unsupported(f"{fn.name}: {what}")
+        return methods[e.func.attr]
+
+    # 1. validation guard: `if not self.<validate>(<the three parameters, bound by type>): return None`
     s0 = body[0]
-    want = f"not self.{validate_name}({cid}, {prop}, {sb})"
-    if not (isinstance(s0, ast.If) and ast.unparse(s0.test) == want and not s0.orelse and len(s0.body) == 1
-            and isinstance(s0.body[0], ast.Return) and ast.unparse(s0.body[0]) == "return None"):
-        raise Unsupported(f"{fn.name}: first statement is not `if {want}: return None`")
-    # 2. the proposal is added to (a possibly new) bucket only when one is given
-    s1 = body[1]
-    if not (isinstance(s1, ast.If) and ast.unparse(s1.test) == f"{prop} is not None" and not s1.orelse):
-        raise Unsupported(f"{fn.name}: second statement is not `if {prop} is not None:`")
-    touched = [x for s in body for x in ast.walk(s) if isinstance(x, ast.Attribute) and x.attr == "_component_buckets"]
-    inside = [x for x in ast.walk(s1) if isinstance(x, ast.Attribute) and x.attr == "_component_buckets"]
-    if len(touched) != len(inside) + 1:
-        raise Unsupported(f"{fn.name}: unexpected accesses to self._component_buckets")
-    # 3. bucket lookup and the absent-bucket rule
-    s2, s3 = body[2], body[3]
-    if not (isinstance(s2, ast.Assign) and len(s2.targets) == 1 and isinstance(s2.targets[0], ast.Name)
-            and ast.unparse(s2.value) == f"self._component_buckets.get({cid})"):
-        raise Unsupported(f"{fn.name}: expected `<v> = self._component_buckets.get({cid})`")
-    pv = s2.targets[0].id
-    if not (isinstance(s3, ast.If) and not s3.orelse and len(s3.body) == 1 and ast.unparse(s3.body[0]) == "return None"):
+    if not (isinstance(s0, ast.If) and isinstance(s0.test, ast.UnaryOp) and isinstance(s0.test.op, ast.Not)
+            and not s0.orelse and len(s0.body) == 1 and _is_return_none(s0.body[0])):
+        raise Unsupported(f"{fn.name}: first statement is not `if not self.<validation>(…): return None`")
+    vfn = self_call(s0.test.operand, "first statement does not call a validation method")
+    vann = {a.arg: ast.unparse(a.annotation) for a in vfn.args.args if a.annotation is not None}
+    for pn, arg in bind_call(vfn, s0.test.operand, True).items():
+        if not (isinstance(arg, ast.Name) and arg.id in (sb, cid, prop) and vann.get(pn) == ann[arg.id]):
+            raise Unsupported(f"{fn.name}: argument {pn} of the validation call")
+    # 2. bucket lookup `<v> = self._component_buckets.get(<ids>)`; before it only `if <proposal> is not None: <add it>`
+    idx = [i for i, st in enumerate(body) if isinstance(st, ast.Assign) and len(st.targets) == 1
+           and isinstance(st.targets[0], ast.Name) and ast.unparse(st.value) == f"self._component_buckets.get({cid})"]
+    if len(idx) != 1:
+        raise Unsupported(f"{fn.name}: expected one `<v> = self._component_buckets.get({cid})`")
+    i = idx[0]
+    pv = body[i].targets[0].id
+    if i != 2 or not (isinstance(body[1], ast.If) and ast.unparse(body[1].test) == f"{prop} is not None" and not body[1].orelse):
+        raise Unsupported(f"{fn.name}: before the bucket lookup there is not exactly `if {prop} is not None: …`")
+    for x in ast.walk(body[1]):  # the branch only files the proposal: no return / target store / other state
+        if isinstance(x, (ast.Return, ast.Raise)) or (isinstance(x, ast.Attribute) and x.attr == "_target_power"):
+            raise Unsupported(f"{fn.name}: the `if {prop} is not None` branch does more than adding the proposal")
+    # 3. the absent-bucket rule
+    s3 = body[i + 1]
+    if not (isinstance(s3, ast.If) and not s3.orelse and len(s3.body) == 1 and _is_return_none(s3.body[0])):
         raise Unsupported(f"{fn.name}: expected `if <bucket absent>: return None`")
-    envb = Env(vals={pv: Val("bucket", ("opt", "Bucket"), "bucket")})
-    absent = tr.cond(s3.test, envb, lambda e: Leaf("true"), lambda e: Leaf("false"))
-    # 4. the computation
-    s4 = body[4]
-    if not (isinstance(s4, ast.Assign) and len(s4.targets) == 1 and isinstance(s4.targets[0], ast.Name)
-            and ast.unparse(s4.value) == f"self.{calc_name}({pv}, {sb})"):
-        raise Unsupported(f"{fn.name}: expected `<t> = self.{calc_name}({pv}, {sb})`")
+    absent = tr.cond(s3.test, Env(vals={pv: Val("bucket", ("opt", "Bucket"), "bucket")}),
+                     lambda e: Leaf("true"), lambda e: Leaf("false"))
+    # 4. the computation `<t> = self.<calc>(<bucket>, <system bounds>)`
+    s4 = body[i + 2]
+    if not (isinstance(s4, ast.Assign) and len(s4.targets) == 1 and isinstance(s4.targets[0], ast.Name)):
+        raise Unsupported(f"{fn.name}: expected `<t> = self.<computation>(…)`")
+    cfn = self_call(s4.value, "the target is not computed by a method of the class")
+    cann = {a.arg: ast.unparse(a.annotation) for a in cfn.args.args if a.annotation is not None}
+    got = {cann.get(pn): ast.unparse(arg) for pn, arg in bind_call(cfn, s4.value, True).items()}
+    if got != {"set[Proposal]": pv, "SystemBounds": sb}:
+        raise Unsupported(f"{fn.name}: arguments of the computation: {got}")
     tv = s4.targets[0].id
-    # 5. store / return
-    if len(body) != 7:
-        raise Unsupported(f"{fn.name}: unexpected statements after the computation")
-    s5, s6 = body[5], body[6]
-    if not (isinstance(s5, ast.If) and not s5.orelse and len(s5.body) == 2
-            and ast.unparse(s5.body[0]) == f"self._target_power[{cid}] = {tv}"
-            and ast.unparse(s5.body[1]) == f"return {tv}" and ast.unparse(s6) == "return None"):
-        raise Unsupported(f"{fn.name}: expected `if …: self._target_power[{cid}] = {tv}; return {tv}` then `return None`")
+    # 5. store / return, path by path: either (store the new target, return it) or (nothing stored, return None)
     last = Val("last", ("opt", "Rat"), "last", strict=True)
     envs = Env(vals={must: Val("must", "Bool"), tv: Val("target", "Rat"),
                      f"self._target_power[{cid}]": last,
                      f"self._target_power.get({cid})": Val("last", ("opt", "Rat"), "last")},
                members={(cid, "self._target_power"): last})
-    store = tr.cond(s5.test, envs, lambda e: Leaf("true"), lambda e: Leaf("false"))
-    return [
+
+    def tail(stmts: list, env: Env, stored: bool):
+        if not stmts:
+            if stored:
+                raise Unsupported(f"{fn.name}: a path stores the target and returns None")
+            return Leaf("false")
+        st, rest = stmts[0], stmts[1:]
+        if isinstance(st, ast.If):
+            return tr.cond(st.test, env, lambda e: tail(st.body + rest, e, stored), lambda e: tail(st.orelse + rest, e, stored))
+        if isinstance(st, ast.Assign) and ast.unparse(st.targets[0]) == f"self._target_power[{cid}]" \
+                and ast.unparse(st.value) == tv and not stored:
+            return tail(rest, env, True)
+        if isinstance(st, ast.Return):
+            if _is_return_none(st):
+                return tail([], env, stored)
+            if ast.unparse(st.value) == tv and stored:
+                return Leaf("true")
+        if isinstance(st, ast.Pass) or _only_logging([st]):
+            return tail(rest, env, stored)
+        raise Unsupported(f"{fn.name}: statement after the computation: {ast.unparse(st)[:60]}")
+    store = tail(body[i + 3:], envs, False)
+    text = [
         "/-- the test of `if <bucket absent>: return None` on `self._component_buckets.get(component_ids)`. -/\n"
         "def bucketAbsentB {Bucket : Type} (bucket : Option Bucket) : Bool :=\n" + render(absent, "  ") + "\n",
         "def bucketAbsent {Bucket : Type} (bucket : Option Bucket) : Prop := bucketAbsentB bucket = true\n",
         "instance {Bucket : Type} (bucket : Option Bucket) : Decidable (bucketAbsent bucket) := by\n"
         "  unfold bucketAbsent; exact inferInstance\n",
-        "/-- the final test of `calculate_target_power`: store the new target and return it (`last` =\n"
-        "`self._target_power.get(component_ids)`). -/\n"
+        "/-- the end of `calculate_target_power`, path by path: `true` = the new target is stored and returned, `false` =\n"
+        "nothing is stored and None is returned (`last` = `self._target_power.get(component_ids)`). -/\n"
         "def storeNewB (must : Bool) (last : Option Rat) (target : Rat) : Bool :=\n" + render(store, "  ") + "\n",
         "def storeNew (must : Bool) (last : Option Rat) (target : Rat) : Prop := storeNewB must last target = true\n",
         "instance (must : Bool) (last : Option Rat) (target : Rat) : Decidable (storeNew must last target) := by\n"
         "  unfold storeNew; exact inferInstance\n",
     ]
+    return text, vfn, cfn
 
 
 def callee_sigs(bounds_src: str) -> dict:
@@ -1032,7 +1241,7 @@ def callee_sigs(bounds_src: str) -> dict:
             if any(a.annotation is None for a in node.args.args) or node.returns is None:
                 raise Unsupported(f"{node.name}: missing annotation")
             ptys = [ann_type(ast.unparse(a.annotation)) for a in node.args.args]
-            sig = (CALLEES[node.name], ptys, ann_type(ast.unparse(node.returns)))
+            sig = (CALLEES[node.name], ptys, ann_type(ast.unparse(node.returns)), [a.arg for a in node.args.args])
             sigs[node.name] = sig
             sigs["_bounds." + node.name] = sig
     missing = set(CALLEES) - set(sigs)
@@ -1045,11 +1254,20 @@ def generate(repo: pathlib.Path) -> str:
     mat = ast.parse((repo / SOURCES[0]).read_text())
     sigs = callee_sigs((repo / SOURCES[1]).read_text())
     tr = Tr(sigs)
+    cls = next((c for c in mat.body if isinstance(c, ast.ClassDef) and c.name == "Matryoshka"), None)
+    if cls is None:
+        raise Unsupported("class Matryoshka not found")
+    # the public entry points (`BaseAlgorithm` API); everything else is found from them
+    calculate = find_method(mat, "Matryoshka", "calculate_target_power")
+    status = find_method(mat, "Matryoshka", "get_status")
+    tr.module_funcs = {f.name: f for f in mat.body if isinstance(f, ast.FunctionDef)}
+    calc_text, vfn, cfn = gen_calculate(tr, cls, calculate)
+    api = {"calculate_target_power", "get_status", "get_target_power", "drop_old_proposals", "__init__", vfn.name, cfn.name}
+    tr.methods = {f.name: f for f in cls.body if isinstance(f, ast.FunctionDef) and f.name not in api}
     out = ["import Frequenz.Extracted.Bounds", "", "namespace Extracted.Matryoshka", ""]
-    out += gen_calc(tr, find_method(mat, "Matryoshka", "_calc_target_power"))
-    out += gen_status(tr, find_method(mat, "Matryoshka", "get_status"))
-    out += gen_validate(tr, find_method(mat, "Matryoshka", "_validate_component_ids"))
-    out += gen_calculate(tr, find_method(mat, "Matryoshka", "calculate_target_power"),
-                         "_calc_target_power", "_validate_component_ids")
+    out += gen_calc(tr, cfn)
+    out += gen_status(tr, status)
+    out += gen_validate(tr, vfn)
+    out += calc_text
     out += ["end Extracted.Matryoshka"]
     return "\n".join(out) + "\n"
